@@ -204,6 +204,8 @@ OPS = {
     "shim.all_intersections": lambda a, b: list(_geometric_intersection.all_intersections(a, b)),
     "hazmat.add_intersection": lambda s, t, ints: _add_int(s, t, ints),
     "hazmat.self_intersections": lambda n: hz_geo.self_intersections(n),
+    "hazmat.self_intersections_traced": lambda n: _self_traced(n),
+    "Curve.self_intersections_limited": lambda n: _limited(lambda: curve(n).self_intersections()),
     "shim.newton_refine_intersect": lambda s, n1, t, n2: list(_intersection_helpers.newton_refine(s, n1, t, n2)),
     "hazmat.newton_refine_intersect": lambda s, n1, t, n2: list(hz_ih.newton_refine(s, n1, t, n2)),
     "shim.newton_refine_triangle": lambda n, d, x, y, s, t: list(_triangle_intersection.newton_refine(n, d, x, y, s, t)),
@@ -252,6 +254,39 @@ def _edges_twice(n):
         e.nodes[:, 0] += 1.0
     e2 = [e.nodes.copy() for e in t.edges]
     return [e1, e2]
+
+
+def _limited(f):
+    old = sys.getrecursionlimit()
+    sys.setrecursionlimit(150)
+    try:
+        return f()
+    finally:
+        sys.setrecursionlimit(old)
+
+
+def _self_traced(nodes):
+    """run hazmat self_intersections while recording the answers of its two oracles in call order"""
+    angles, isects = [], []
+    orig_all, orig_angle = hz_geo.all_intersections, hz_curve.discrete_turning_angle
+
+    def all_w(a, b):
+        res, flag = orig_all(a, b)
+        isects.append(np.array(res, order="F", copy=True))
+        return res, flag
+
+    def angle_w(n):
+        v = orig_angle(n)
+        angles.append(bool(v < np.pi))
+        return v
+    hz_geo.all_intersections = all_w
+    hz_curve.discrete_turning_angle = angle_w
+    try:
+        out = hz_geo.self_intersections(nodes)
+    finally:
+        hz_geo.all_intersections = orig_all
+        hz_curve.discrete_turning_angle = orig_angle
+    return [angles, isects, out]
 
 
 def _add_int(s, t, ints):
